@@ -217,6 +217,10 @@ M("request_over_live_ca_list", ["C14"], "D54 reverted (J1939-21): requests dispa
    "            for ca in self._cas:\n                if ca.message_acceptable(dest_address):\n                    ca._process_request("))
 M("dm1_no_state_check_after_data_callback", ["C13"], "D55 reverted: the CA state is not looked at again after the data callback",
   ("j1939/diagnostic_messages.py", "            # the address was lost while the data callback was running\n            return True\n", "            pass\n"))
+M("tp21_flow_control_to_global_handled", ["C05"], "D56 reverted (J1939-21): RTS/CTS/ACK/abort to address 255 are handled",
+  ("j1939/j1939_21.py", "        if (dest_address == ParameterGroupNumber.Address.GLOBAL) and (control_byte != self.ConnectionMode.BAM):", "        if False:"))
+M("tp22_flow_control_to_global_handled", ["C05"], "D56 reverted (J1939-22): RTS/CTS/ACK/abort to address 255 are handled",
+  ("j1939/j1939_22.py", "        if (dest_address == ParameterGroupNumber.Address.GLOBAL) and (control_byte not in (self.TpControlType.BAM, self.TpControlType.EOM_STATUS)):", "        if False:"))
 M("dm1_notify_rereads_attributes", ["C16"], "D49 reverted: _notify_subscribers re-reads the attributes for every subscriber",
   ("j1939/diagnostic_messages.py", "            callback(sa, lamp_status.copy(), [dict(dtc_dic) for dtc_dic in dtc_dic_list], timestamp)",
    "            callback(sa, self._lamp_status.copy(), [dict(dtc_dic) for dtc_dic in self._dtc_dic_list], timestamp)"))
